@@ -461,6 +461,10 @@ def run(chk, S: Session):
     c09_iwp.hilbert_rules(chk, S)
     c09_iwp.iwp_rules(chk, S)
     c09_iwp.factory_rules(chk, S)
+    from ..harness import borrow
+
+    rb = chk.rule("R-C09-B", "clause of this statement decided by a rule of C20 (the drift of an exponential prior is differentiated with respect to every leaf of the state, whatever its dtype)", floor=1)
+    borrow(chk, S, rb, "C20", lambda r, c: r == "R-C20-4" and "drift Jacobian" in c)
 
 
 def tail_rules(chk, S, r3):
